@@ -1868,6 +1868,7 @@ def run(ctx):
     # mutagen's own MP4 ilst reader (MP4Tags.load / __parse_data / _failed_atoms) against Model/Container/Mp4Reader.lean
     import mp4file_tie
     mp4file_tie.run_reader(ctx)
+    mp4file_tie.run_order(ctx)
     # the file-level compositions (Props/C01_Files, C01_OggInject, C01_Asf) rest on the container models, whose ties (incl. the
     # comparison of every saved output's tags with a real reload) run under C02/C03/C07/C08/C09
     ctx.hist.update(_hist)
